@@ -84,6 +84,13 @@ impl Persister for FilePersister {
                 format!("{COMPONENT} (error: {error}) - failed to write data to file: {path}")
             })
             .map_err(|_| IggyError::CannotWriteToFile)?;
+        // The write above only hands the bytes over, wait until they are in the file.
+        file.flush()
+            .await
+            .with_error_context(|error| {
+                format!("{COMPONENT} (error: {error}) - failed to write data to file: {path}")
+            })
+            .map_err(|_| IggyError::CannotWriteToFile)?;
         Ok(())
     }
 
@@ -95,6 +102,13 @@ impl Persister for FilePersister {
             })
             .map_err(|_| IggyError::CannotOverwriteFile)?;
         file.write_all(bytes)
+            .await
+            .with_error_context(|error| {
+                format!("{COMPONENT} (error: {error}) - failed to write data to file: {path}")
+            })
+            .map_err(|_| IggyError::CannotWriteToFile)?;
+        // The write above only hands the bytes over, wait until they are in the file.
+        file.flush()
             .await
             .with_error_context(|error| {
                 format!("{COMPONENT} (error: {error}) - failed to write data to file: {path}")
